@@ -85,6 +85,8 @@ def measure(scn, H, stats):
             m['F_REDECLARE'] += 1
         elif rec['op'] == 'set_pwm' and rec['exc'] is None:
             m['F_SETPWM'] += 1
+        elif rec['op'] == 'set_pwm' and op.get('invalid'):
+            m['F_BADPARAM_pwm_rejected'] += 1
         elif rec['op'] == 'set_load' and rec['exc'] is None:
             m['F_SETLOAD'] += 1
         elif rec['op'] == 'branch_off' and rec['exc'] is None:
@@ -412,7 +414,7 @@ def main(argv=None):
     status = 0
     lines = []
     replays = []
-    for s in sorted(unknown)[:3]:
+    for s in sorted(unknown)[:int(os.environ.get('GPSIM_MAX_REPLAYS', 3))]:
         path, err = write_replay(prop, spec, by_sig[s], dict(
             next((c or {}) for p, _, c in spec['profiles']
                  if p == by_sig[s]['profile']), **spec.get(tier + '_cfg', {})))
